@@ -118,6 +118,7 @@ def main():
                 import inspect
 
                 names = [n for n in inspect.signature(fn).parameters]
+                has_varkw = any(p.kind == p.VAR_KEYWORD for p in inspect.signature(fn).parameters.values())
                 args = []
                 kwargs = {}
                 for n in names:
@@ -128,7 +129,24 @@ def main():
                 for n in names[len(args):]:
                     if n in env:
                         kwargs[n] = env[n]
-                result = fn(*args, **kwargs)
+                if has_varkw:
+                    for n in params:
+                        if n not in names and n != "G":
+                            kwargs[n] = env[n]
+                import json as _json_mod
+
+                _orig_dumps = _json_mod.dumps
+
+                def _rec_dumps(x, *a, **k):
+                    r = _orig_dumps(x, *a, **k)
+                    S.OUTPUT_LOG.append(("json.dumps", copy.deepcopy(x), r))
+                    return r
+
+                _json_mod.dumps = _rec_dumps
+                try:
+                    result = fn(*args, **kwargs)
+                finally:
+                    _json_mod.dumps = _orig_dumps
         except ReplayDone:
             out["reproduced"] = True
             out["violated"] = list(ctx.world.violations)
